@@ -48,7 +48,7 @@ def run(cmd, cwd=None, timeout=None, env=None, input=None):
 
 class Lock:
     def __init__(self, name):
-        self.path = VERIF / ('.lock-' + name)
+        self.path = COQ.parent / ('.lock-' + name)
     def __enter__(self):
         self.f = open(self.path, 'w')
         fcntl.flock(self.f, fcntl.LOCK_EX)
@@ -61,7 +61,7 @@ class Lock:
 # ---------------------------------------------------------------- gen
 def step_gen():
     """Regenerate coq/Gen/*.v from the live /repo modules (only rewrites changed files)."""
-    env = dict(os.environ, PYTHONPATH=str(REPO), PYTHONHASHSEED='0')
+    env = dict(os.environ, PYTHONPATH=str(REPO), PYTHONHASHSEED='0', VERIF_GEN_DIR=str(COQ / 'Gen'))
     with Lock('gen'):
         rc, out = run([PY, str(VERIF / 'tools/gen/run_gen.py')], env=env, timeout=600)
     return rc == 0, out
@@ -378,6 +378,29 @@ def impl_call(f, *a, **kw):
 
 # ---------------------------------------------------------------- main entry
 def main_check(prop, cfg, tier, seed, replay=None):
+    """With VERIF_REPO pointing at a scratch copy (mutation testing) the whole check runs on a private
+    copy of coq/ and ocaml/ so that regenerated Gen files and rebuilt drivers never disturb /verif."""
+    global COQ, OCAML, EVIDENCE_DIR
+    alt = None
+    if str(REPO) != '/repo':
+        alt = Path(tempfile.mkdtemp(prefix='pv-alt-'))
+        with Lock('coq'):
+            run(['rsync', '-a', '--exclude', '.lock-*', str(VERIF / 'coq') + '/', str(alt / 'coq') + '/'])
+        run(['rsync', '-a', str(VERIF / 'ocaml') + '/', str(alt / 'ocaml') + '/'])
+        COQ, OCAML, EVIDENCE_DIR = alt / 'coq', alt / 'ocaml', alt / 'evidence'
+        os.environ['VERIF_GEN_DIR'] = str(COQ / 'Gen')
+        log('scratch repo %s: private build tree %s' % (REPO, alt))
+    try:
+        return _main_check(prop, cfg, tier, seed, replay)
+    finally:
+        if alt is not None:
+            shutil.rmtree(alt, ignore_errors=True)
+
+
+EVIDENCE_DIR = VERIF / 'evidence'
+
+
+def _main_check(prop, cfg, tier, seed, replay=None):
     t0 = time.time()
     violations = []     # (replay_path, suffix)
     known_lines = []
@@ -521,8 +544,8 @@ def main_check(prop, cfg, tier, seed, replay=None):
         'assumptions': cfg.get('assumptions', []),
     }
     evidence['coverage'].update(ev_extra)
-    (VERIF / 'evidence').mkdir(exist_ok=True)
-    (VERIF / 'evidence' / (prop + '.json')).write_text(json.dumps(evidence, indent=1, default=str))
+    EVIDENCE_DIR.mkdir(exist_ok=True)
+    (EVIDENCE_DIR / (prop + '.json')).write_text(json.dumps(evidence, indent=1, default=str))
 
     for l in known_lines:
         print(l)
